@@ -41,12 +41,14 @@ def scenarios(ck):
         yield mk(rng, spec)
     # a long dependency chain (already stored) next to the failing task, under a lowered recursion limit: handling the failure must not
     # depend on how deep the rest of the DAG is (rare and cheap: the chain is pre-filled)
-    for i in range(ck.n(3, 30)):
+    for i in range(ck.n(4, 30)):
         order = ['R', 'D', 'C', 'U']
         rng.shuffle(order)
-        if order.index('D') < order.index('R'):
-            order.remove('D')
-            order.insert(order.index('R') + 1, 'D')
+        if order.index('C') < order.index('R') and rng.random() < 0.7:
+            order.remove('C')                  # mostly: the consumer of the deep chain is still queued when R fails
+            order.append('C')
+        order.remove('D')
+        order.insert(order.index('R') + 1 + (rng.random() < 0.5 and order.index('R') + 1 < len(order)), 'D')
         n = rng.choice([220, 260])
         spec = X.deep_chain_program(n, order)
         nw = rng.choice([1, 1, 2])
